@@ -13,6 +13,7 @@ CHECKS = {
     'C04': 'checks_wire.check_c04',
     'C05': 'checks_wire.check_c05',
     'C06': 'checks_wire.check_c06',
+    'C07': 'checks_wire.check_c07',
     'C08': 'checks_rt.check_c08',
     'C13': 'checks_wire.check_c13',
 }
